@@ -675,6 +675,15 @@ class Slicer:
 
     def _rvalue(self, rv, atoms, seen):
         k = rv["k"]
+        if k == "cast":
+            kind = rv.get("kind", "")
+            if kind.startswith("FloatToInt"):
+                atoms.add("cast:FloatToInt")
+            elif kind.startswith("IntToInt"):
+                m1 = re.search(r"(\d+)$", rv.get("src_ty", ""))
+                m2 = re.search(r"(\d+)$", rv.get("ty", ""))
+                if m1 and m2 and int(m2.group(1)) < int(m1.group(1)):
+                    atoms.add("cast:narrow")
         if k in ("use", "cast", "repeat"):
             self._operand(rv["op"], atoms, seen)
         elif k in ("ref", "rawptr", "discr"):
